@@ -3,7 +3,7 @@
 From DG Require Import Base.Util Base.Sexp Model.Jsr Model.RunJsr Model.Decl Model.RunDecl Model.RunC01 Model.RunC05 Model.RunC07 Model.RunC06 Model.RunC13.
 
 (* C01 also has declaration-layer cases *)
-Definition run_c01j : sexp -> sexp := fun s => if is_decl_case s then run_decl_any s else with_jsr run_c01 s.
+Definition run_c01j : sexp -> sexp := fun s => if is_decl_case s then run_decl_any s else with_jsr_c01 run_c01 s.
 Definition run_c03 : sexp -> sexp := with_jsr run_c01.
 Definition run_c04 : sexp -> sexp := with_jsr run_c01.
 Definition run_c05j : sexp -> sexp := with_jsr run_c05.
